@@ -20,7 +20,7 @@ vars == <<tid, stage, verdict>>
 OutOK(M, Y) == IF M.cyclic THEN IsFixpoint(M, Y) ELSE Y = Converged(M)
 
 \* C04: every input equals its source through the index chain and the unit conversion (relation on observed values)
-InOK(M, Y, X) == X = AllInputs(M, Y)
+InOK(M, Y, X, chk) == \A k \in 1..Len(chk) : X[chk[k]] = InVal(M, Y, chk[k])
 
 FullOK(M, dYspec, full) == IF M.cyclic THEN IsTotalAll(M, full) ELSE full = dYspec
 
@@ -41,8 +41,12 @@ Judge(c) ==
     IN [oracle |-> IF M.cyclic THEN IsFixpoint(M, c.ref.out) /\ IsTotalAll(M, c.ref.full)
                    ELSE c.ref.out = Converged(M) /\ c.ref.full = dYspec,
         runs |-> [k \in 1..Len(c.runs) |->
-                     [out |-> OutOK(M, c.runs[k].out), inp |-> InOK(M, c.runs[k].out, c.runs[k].inp)]],
-        cfgs |-> [k \in 1..Len(c.cfgs) |-> JudgeCfg(M, dYspec, c.cfgs[k], c.vois)]]
+                     [out |-> IF c.runs[k].fix THEN OutOK(M, c.runs[k].out) ELSE TRUE,
+                      inp |-> InOK(M, c.runs[k].out, c.runs[k].inp, c.runs[k].chk)]],
+        cfgs |-> [k \in 1..Len(c.cfgs) |-> JudgeCfg(M, dYspec, c.cfgs[k], c.vois)],
+        \* the specification's source positions of every input (used by the harness to judge intermediate,
+        \* non-rational states of a run in floating point)
+        pos |-> [i \in 1..Len(M.ins) |-> ConnPos(M, i)]]
 
 Init == tid \in 1..Len(Cases) /\ stage = 0 /\ verdict = <<>>
 Next == stage = 0 /\ stage' = 1 /\ verdict' = Judge(Cases[tid]) /\ UNCHANGED tid
